@@ -48,6 +48,10 @@ def instances(tier):
         tag = "".join(c[0] for c in comps)
         nw = 2 if (len(comps) == 1 and tier == "thorough") or comps == ("ns",) else 1
         out.append({"name": f"stalta_{tag}_w{nw}", "func": "run_stalta", "kwargs": {"comps": list(comps), "nwin": nw, "n": 4, "sta": 1.0, "lta": 2.0, "attach": "none"}})
+    # LTA length that is not a whole number of STA blocks, and an LTA shorter than two STA blocks
+    out.append({"name": "stalta_n6_lta_not_multiple", "func": "run_stalta", "kwargs": {"comps": ["ns"], "nwin": 1, "n": 6, "sta": 1.0, "lta": 1.5, "attach": "none"}})
+    out.append({"name": "stalta_n6_sta3_lta4", "func": "run_stalta", "kwargs": {"comps": ["ew"], "nwin": 1, "n": 6, "sta": 1.5, "lta": 2.0, "attach": "none"}})
+    out.append({"name": "stalta_n6_lta5", "func": "run_stalta", "kwargs": {"comps": ["vt"], "nwin": 1, "n": 6, "sta": 1.0, "lta": 2.5, "attach": "none"}})
     out.append({"name": "stalta_n6_three_chunks", "func": "run_stalta", "kwargs": {"comps": ["vt"], "nwin": 1, "n": 6, "sta": 1.0, "lta": 2.0, "attach": "none"}})
     if tier == "thorough":
         out.append({"name": "stalta_w3", "func": "run_stalta", "kwargs": {"comps": ["ns"], "nwin": 3, "n": 4, "sta": 1.0, "lta": 2.0, "attach": "traditional"}})
